@@ -924,48 +924,61 @@ def greRouting (raw : Bytes) : Nat → Nat → List (Nat × Nat × Nat × Bytes)
     let acc' := acc ++ [(af, so, sl', sl raw (o + 4) (o + 4 + sl'))]
     if sl' = 0 then pure (o + 4, acc') else greRouting raw fuel (o + 4 + sl') acc'
 
+/-- an optional 32-bit field (key, sequence number) at `o` -/
+def greOpt (raw : Bytes) (present : Bool) (o : Nat) : P (Nat × Option Nat) :=
+  if present then
+    match greField raw o 4 with
+    | .ok k => pure (o + 4, some k)
+    | .error e => .error e
+  else pure (o, none)
+
+/-- checksum and routing offset, present when either the C or the R bit is set -/
+def greCsum (raw : Bytes) (present : Bool) : P (Nat × Option Nat × Nat) :=
+  if present then
+    match greField raw 4 2 with
+    | .error e => .error e
+    | .ok c =>
+      match greField raw 6 2 with
+      | .error e => .error e
+      | .ok ro => pure (8, some c, ro)
+  else pure (4, none, 0)
+
+def greRoute (raw : Bytes) (present : Bool) (o : Nat) : P (Nat × Option (List (Nat × Nat × Nat × Bytes))) :=
+  if present then
+    match greRouting raw raw.length o [] with
+    | .ok (o', rs) => pure (o', some rs)
+    | .error e => .error e
+  else pure (o, none)
+
+/-- gre.py:144-149: the payload constructor chosen by the protocol type -/
+def greTail (next : K → Bytes → P Frame) (raw : Bytes) (h : Gre) (o : Nat) : P Frame :=
+  match (if h.type = 0x0800 then next .ipv4 (raw.drop o) else if h.type = 0x6558 then next .eth (raw.drop o)
+         else pure (.raw (raw.drop o)) : P Frame) with
+  | .ok n => pure (.ext (.gre h) raw n)
+  | .error e => .error e
+
 /-- gre.py:102-149 (`verify_csum` is False) -/
 def greParse (next : K → Bytes → P Frame) (raw : Bytes) : P Frame :=
   if raw.length < 4 then pure (.unparsed "gre" raw) else
   match unpackE [.uint 2, .uint 2] (raw.take 4) with
   | .ok [.num flags, .num type] =>
-    let csumP := (flags / 32768) % 2 = 1
-    let routeP := (flags / 16384) % 2 = 1
-    let keyP := (flags / 8192) % 2 = 1
-    let seqP := (flags / 4096) % 2 = 1
-    let step1 : P (Nat × Option Nat × Nat) :=
-      if csumP ∨ routeP then
-        match greField raw 4 2, greField raw 6 2 with
-        | .ok c, .ok ro => pure (8, some c, ro)
-        | .error e, _ => .error e
-        | _, .error e => .error e
-      else pure (4, none, 0)
-    match step1 with
+    let csumP := decide ((flags / 32768) % 2 = 1)
+    let routeP := decide ((flags / 16384) % 2 = 1)
+    let keyP := decide ((flags / 8192) % 2 = 1)
+    let seqP := decide ((flags / 4096) % 2 = 1)
+    match greCsum raw (csumP || routeP) with
     | .error e => .error e
     | .ok (o1, csum, ro) =>
-      let step2 : P (Nat × Option Nat) := if keyP then (match greField raw o1 4 with | .ok k => pure (o1 + 4, some k) | .error e => .error e) else pure (o1, none)
-      match step2 with
+      match greOpt raw keyP o1 with
       | .error e => .error e
       | .ok (o2, key) =>
-        let step3 : P (Nat × Option Nat) := if seqP then (match greField raw o2 4 with | .ok k => pure (o2 + 4, some k) | .error e => .error e) else pure (o2, none)
-        match step3 with
+        match greOpt raw seqP o2 with
         | .error e => .error e
         | .ok (o3, seq) =>
-          let step4 : P (Nat × Option (List (Nat × Nat × Nat × Bytes))) :=
-            if routeP then (match greRouting raw raw.length o3 [] with | .ok (o, rs) => pure (o, some rs) | .error e => .error e)
-            else pure (o3, none)
-          match step4 with
+          match greRoute raw routeP o3 with
           | .error e => .error e
           | .ok (o, routing) =>
-            let h : Gre := ⟨type, flags % 8, decide ((flags / 2048) % 2 = 1), (flags / 256) % 8, csum, ro, key, seq, routing⟩
-            let body := raw.drop o
-            let r : P Frame :=
-              if type = 0x0800 then next .ipv4 body
-              else if type = 0x6558 then next .eth body
-              else pure (.raw body)
-            match r with
-            | .ok n => pure (.ext (.gre h) raw n)
-            | .error e => .error e
+            greTail next raw ⟨type, flags % 8, decide ((flags / 2048) % 2 = 1), (flags / 256) % 8, csum, ro, key, seq, routing⟩ o
   | .ok _ => .error .struct
   | .error e => .error e
 
